@@ -712,6 +712,10 @@ func goCode(root string, unit string) string {
 		header("Model.GoRec", "Model.Json", "Model.Collection")
 		text, errs := translateCollection(parseFile(root, "pub/collection.go"))
 		emit("pub/collection.go (Harvest, harvestWithEmptyCount)", text, errs)
+	case "splicer":
+		header("Model.GoSem", "Model.GoSlices")
+		text, errs := translateSplicer(parseFile(root, "splicer/splicer.go"), parseFile(root, "pub/interfaces.go"), "Splicer", []string{"Harvest", "clone", "replenish", "microharvest"})
+		emit("splicer/splicer.go (element type, Harvest, clone, replenish, microharvest)", text, errs)
 	default:
 		b.WriteString("-- unknown unit " + unit + "\n")
 	}
